@@ -45,24 +45,40 @@ func QuietLogs() {
 	})
 }
 
+// BubbleAborted is returned by Bubble when the testing framework ended the bubble's goroutine itself
+// (it does so, via FailNow, when the race detector reported a race inside the bubble).
+const BubbleAborted = "sim: bubble aborted by the testing framework (race detector report?)"
+
 // Bubble runs f inside a synctest bubble (fake clock starting at 2000-01-01) and returns f's panic, if any.
 func Bubble(t *testing.T, f func()) (panicVal any) {
 	QuietLogs()
-	defer func() {
-		if r := recover(); r != nil {
-			panicVal = r
-		}
-	}()
-	synctest.Test(t, func(t *testing.T) {
-		// the bubble body runs in its own goroutine: a panic of the system under test must be caught here
+	done := make(chan any, 1)
+	go func() {
+		finished := false
+		var pv any
 		defer func() {
 			if r := recover(); r != nil {
-				panicVal = fmt.Sprintf("%v\n%s", r, trimStackN(string(debug.Stack()), 30))
+				done <- r
+				return
 			}
+			if !finished {
+				done <- BubbleAborted // runtime.Goexit: the framework called FailNow on this goroutine
+				return
+			}
+			done <- pv
 		}()
-		f()
-	})
-	return panicVal
+		synctest.Test(t, func(t *testing.T) {
+			// the bubble body runs in its own goroutine: a panic of the system under test must be caught here
+			defer func() {
+				if r := recover(); r != nil {
+					pv = fmt.Sprintf("%v\n%s", r, trimStackN(string(debug.Stack()), 30))
+				}
+			}()
+			f()
+		})
+		finished = true
+	}()
+	return <-done
 }
 
 func trimStackN(st string, n int) string {
